@@ -302,7 +302,9 @@ func runC19(c *Check, w *World) {
 		}
 	}
 	ruleNoPkgState(c, w, tb, ef, "R19.5", w.ModuleFuncs(ApiPath, CmdPath)[:0])
-	c.Floor("R19.1", 10)
+	c.Floor("R19.1", 5) // two windows, the stack walk, and loops (whose number a refactoring may legitimately reduce)
+	c.Require("R19.1", "window-bounded", 2)
+	c.Require("R19.1", "stack-walk-bounded", 1)
 	c.Floor("R19.2", 4)
 	c.Floor("R19.3", 3)
 	c.Floor("R19.4", 40)
